@@ -158,6 +158,42 @@ def r2_open_coverage(P, rep, ctx):
     rep.check(ok, "C04.R2", fi.qual, "the newest container of a patched set is checked against its predecessor (hash optional, but verified when present)", fi.loc(), construct="newest container check", message="_open does not check the newest patch against its predecessor -2")
     dup = [[f"len({{{rv}._ublock(__f).patch_uuid for __f in {rv}.__files__}}) != len({rv}.__files__)", f"len({rv}.__files__) != len({{{rv}._ublock(__f).patch_uuid for __f in {rv}.__files__}})"]]
     r = f.refuses_when(dup)
+    if not r:
+        # the same test with the projection spelled differently: len(<set of patch uuids over all files>) != len(<one
+        # element per file>), e.g. uuids = [..for f in files]; len(set(uuids)) != len(uuids)
+        FILES = f"{rv}.__files__"
+
+        def coll(e):
+            """-> ('set' | 'seq', element text with the loop variable as V, iterated text) or None"""
+            kind = None
+            if isinstance(e, ast.Call) and isinstance(e.func, ast.Name) and e.func.id in ("set", "frozenset") and len(e.args) == 1:
+                kind, e = "set", e.args[0]
+            if isinstance(e, ast.Call) and isinstance(e.func, ast.Name) and e.func.id in ("list", "tuple", "sorted") and len(e.args) == 1:
+                e = e.args[0]
+            if isinstance(e, (ast.SetComp, ast.ListComp, ast.GeneratorExp)):
+                if len(e.generators) != 1 or e.generators[0].ifs or not isinstance(e.generators[0].target, ast.Name):
+                    return None
+                kind = kind or ("set" if isinstance(e, ast.SetComp) else "seq")
+                v_ = e.generators[0].target.id
+                return kind, _re.sub(rf"\b{_re.escape(v_)}\b", "V", norm(e.elt)), norm(e.generators[0].iter)
+            if norm(e) == FILES:
+                return kind or "seq", "V", FILES
+            return None
+
+        for t in g.nodes:
+            if t.kind != "test":
+                continue
+            x = f.xe_at(t.idx, t.exprs[0])
+            m = M.match("len(__a) == len(__b)", x)
+            if m is None:
+                continue
+            ca, cb = coll(m["__a"]), coll(m["__b"])
+            if ca is None or cb is None or {ca[0], cb[0]} != {"set", "seq"}:
+                continue
+            st_, sq_ = (ca, cb) if ca[0] == "set" else (cb, ca)
+            if st_[1] == f"{rv}._ublock(V).patch_uuid" and st_[2] == FILES and sq_[2] == FILES:
+                # polarity-normalised atom is `==`: the function must not return normally on its false edge
+                r = f.refuses([(t.idx, "F")])
     rep.check(bool(r), "C04.R2", fi.qual, "patch uuids must be pairwise distinct (taken over all containers; a duplicate raises)", fi.loc(), construct="distinct uuid test", message="_open does not refuse file sets with a duplicated patch_uuid")
     lb = [v for i, v, b in f.stores(f"{rv}._ublocks")]
     ok = bool(lb) and all(isinstance(v, ast.DictComp) and f.x(v.generators[0].iter) == fi.params[1] and not v.generators[0].ifs and M.match("IH5UserBlock.load(__p)", v.value) is not None for v in lb)
